@@ -58,6 +58,16 @@ def run(ctx):
         ctx.ob('C47.lossless-store', 'USB3ProtocolLayer.bus_interval.width',
                (ds[0].lhs.w or 0) >= 14 and (ds[0].rhs.w or 0) >= 14, ds[0].loc,
                'bus_interval path widths: %s <- %s bits, need 14' % (ds[0].lhs.w, ds[0].rhs.w))
+    # the received-header queue of the link layer reaches the demultiplexer (and through it the ITP handler) as it is: valid,
+    # header and ready are combinational, unconditional copies -- a register on only part of this handshake makes the
+    # handlers see a header other than the one their `ready` pops
+    LNK = 'self._link.header_source.'
+    for lhs, rhs in (('hp_demux.sink.valid', LNK + 'valid'), ('hp_demux.sink.header', LNK + 'header'), (LNK + 'ready', 'hp_demux.sink.ready')):
+        dsx = pl.drivers(lhs, exact=True)
+        okx = len(dsx) == 1 and dsx[0].domain == 'comb' and not dsx[0].guard and dsx[0].state is None and \
+            isinstance(dsx[0].rhs, E) and q.expand(pl, dsx[0].rhs).canon() == rhs
+        ctx.ob('C47.layer-forward', 'USB3ProtocolLayer.header-queue.%s' % lhs.split('.')[-1], okx, dsx[0].loc if dsx else None,
+               '%s must be the combinational, unconditional copy of %s: %s' % (lhs, rhs, [q.fmt(d) for d in dsx]))
     sub = [s for s in pl.submodules if s.name == 'itp_handler']
     ins = [getattr(x, 'self_val', x) for x in (getattr(sub[0].obj, 'inserters', None) or [])] if sub else []
     ctx.ob('C47.layer-forward', 'USB3ProtocolLayer.itp_handler.always-clocked', not ins, sub[0].loc if sub else None,
